@@ -25,4 +25,14 @@ CHECKS = {
         ],
         assumptions=SIM_ASSUMPTIONS,
     ),
+    "C03": dict(
+        level="model_checking",
+        rule="parent scope(2) x declared child kinds(3 sets per scope) x generateSelector(2) x 2 (thorough: 3) slots each ranging over role(9 composite / 8 decorator) x namespace(2) x kind(declared + one undeclared); "
+             "one real sync per case; non-trivial = at least one object present in the cluster",
+        units=[
+            dict(pkg=COMPOSITE, test="TestVerifC03", shards=dict(quick=8, thorough=16), budget=dict(quick=300, thorough=1500)),
+            dict(pkg=DECORATOR, test="TestVerifC03", shards=dict(quick=4, thorough=16), budget=dict(quick=300, thorough=1500)),
+        ],
+        assumptions=SIM_ASSUMPTIONS,
+    ),
 }
